@@ -180,27 +180,22 @@ def _orderings(names):
 
 
 def d3_validation_iterindices(ctx, ii):
-    ifs = [n for n in own_nodes(ii.node) if isinstance(n, ast.If) and always_raises(n.body) and not n.orelse
-           and 'ValueError' in raised_names(n.body)]
-    ys = [n for n in own_nodes(ii.node) if isinstance(n, ast.Yield)]
-    range_ifs = []
-    for st in ifs:
-        nm = {x for x in ('startindex', 'endindex') if x in norm(st.test)}
-        if nm:
-            range_ifs.append(st)
-    ctx.floor('C14 range validation tests in iterindices', len(range_ifs), 2)
-    for st in range_ifs:
-        ok = all(must_precede(ii, y, [st]) for y in ys)
-        ctx.decide(ok, 'R-DOM', 'D3', ii, st, f'validation-precedes-yield::{norm(st.test)}',
-                   f'iterindices: `{norm(st.test)}` raises ValueError before the first frame is yielded',
-                   detail='a frame can be yielded before the range was validated')
-    # combined raising condition over the order types of {0, start, end, n}
+    """Path-condition evaluation: for every weak ordering of (0, startindex, endindex, n) the branch tests of
+    iterindices are folded and the CFG is explored: the call must end in `raise ValueError` before any frame is
+    yielded exactly when not (0 <= startindex < endindex <= n).  Independent of how the tests are laid out
+    (separate ifs, an elif chain, merged or split conditions, either polarity)."""
+    from ..pathcond import reach_under
+    from ._trunc import folder
+    g = cfg_of(ii)
+    ys = [g.node_for(n) for n in own_nodes(ii.node) if isinstance(n, ast.Yield)]
+    vraises = [g.node_for(n) for n in own_nodes(ii.node) if isinstance(n, ast.Raise) and 'ValueError' in raised_names([n])]
+    ctx.floor('C14 range validation raises in iterindices', len(vraises), 2)
     lens = ('self.shape[0]', 'len(self)', 'self._shape[0]')
     total = agree = 0
     unknown = False
     wrong = []
+    range_ifs = [n for n in own_nodes(ii.node) if isinstance(n, ast.If)]
     for o in _orderings(['zero', 'startindex', 'endindex', 'n']):
-        # shift so that zero really is 0
         env = {k: v - o['zero'] for k, v in o.items()}
         env2 = {'startindex': env['startindex'], 'endindex': env['endindex']}
         for l in lens:
@@ -208,13 +203,16 @@ def d3_validation_iterindices(ctx, ii):
         if env['n'] < 0:
             continue          # an array length is never negative
         total += 1
-        raised = False
-        for st in range_ifs:
-            try:
-                if fold(st.test, env2):
-                    raised = True
-            except Exception:
-                unknown = True
+        may = reach_under(ii, folder(env2, ii))
+        y_reach = any(y in may for y in ys)
+        r_reach = any(r in may for r in vraises)
+        if r_reach and not y_reach:
+            raised = True
+        elif not r_reach:
+            raised = False
+        else:
+            unknown = True
+            continue
         s, e, n = env['startindex'], env['endindex'], env['n']
         spec = not (0 <= s < e <= n)
         if raised == spec:
